@@ -14,6 +14,79 @@ mod k {
     use super::super::*;
     use super::lifted::*;
 
+    // ---- which permission guards which HTTP operation (C08) ----------------------------------------------------
+    // serve_request is async and builds hyper responses; its body is lifted verbatim with the responses replaced by
+    // markers and the permission test replaced by a recording stub (the ACL evaluation itself is decided by the
+    // harnesses in acl.rs).
+    #[derive(PartialEq, Eq, Clone, Copy)]
+    pub enum HttpOutcome {
+        Denied,
+        Root,
+        Metrics,
+        Leases,
+        NotFound,
+    }
+    static mut ASKED: [Option<u8>; 2] = [None, None];
+    static mut N_ASKED: usize = 0;
+    static mut VERDICT: bool = false;
+    fn perm_code(p: &acl::PermissionType) -> u8 {
+        match p {
+            acl::PermissionType::Http => 1,
+            acl::PermissionType::HttpMetrics => 2,
+            acl::PermissionType::HttpLeases => 3,
+            _ => 0,
+        }
+    }
+    fn verif_require(_acls: &[acl::Acl], _client: &acl::Attributes, perm: acl::PermissionType) -> Option<()> {
+        unsafe {
+            if N_ASKED < 2 {
+                ASKED[N_ASKED] = Some(perm_code(&perm));
+            }
+            N_ASKED += 1;
+            if VERDICT { None } else { Some(()) }
+        }
+    }
+    include!(concat!(env!("VERIF_GEN_DIR"), "/http_serve_request.rs"));
+
+    /// VERIF: {"p":"C08","tier":"quick","fns":["http::serve_request (body lifted from source)"],"bounds":"methods GET and POST x paths {/, /metrics, /api/v1/leases.json, /other, empty} x both ACL verdicts","oracle":"the root page is served only after the Http permission was granted, the metrics only after HttpMetrics, the lease listing only after HttpLeases; a refused permission yields the denial; exactly one permission is consulted per request","stubs":["body of serve_request lifted verbatim; hyper responses replaced by markers; require_http_permission = recording stub with an arbitrary verdict (ACL evaluation decided in acl.rs harnesses)"],"covers":3,"unwind":24}
+    #[kani::proof]
+    #[kani::unwind(24)]
+    fn c08_http_operations_are_guarded_by_their_permission() {
+        let paths = ["/", "/metrics", "/api/v1/leases.json", "/other", ""];
+        let pi: usize = kani::any();
+        kani::assume(pi < 5);
+        let get: bool = kani::any();
+        let method = if get { hyper::Method::GET } else { hyper::Method::POST };
+        let verdict: bool = kani::any();
+        unsafe {
+            VERDICT = verdict;
+            N_ASKED = 0;
+            ASKED = [None, None];
+        }
+        let client = acl::Attributes { addr: erbium_net::addr::NetAddr::from(std::net::SocketAddr::from(([127, 0, 0, 1], 80))) };
+        let out = lifted_http_serve_request(&method, paths[pi], &[], &client);
+        let (n, asked) = unsafe { (N_ASKED, ASKED[0]) };
+        kani::cover!(out == HttpOutcome::Leases, "lease listing served");
+        kani::cover!(out == HttpOutcome::Denied, "denied");
+        kani::cover!(out == HttpOutcome::Metrics, "metrics served");
+        match out {
+            HttpOutcome::Root => assert!(n == 1 && asked == Some(1) && verdict, "root page only with the Http permission"),
+            HttpOutcome::Metrics => assert!(n == 1 && asked == Some(2) && verdict, "metrics only with the HttpMetrics permission"),
+            HttpOutcome::Leases => assert!(n == 1 && asked == Some(3) && verdict, "lease listing only with the HttpLeases permission"),
+            HttpOutcome::Denied => assert!(n == 1 && !verdict, "denied only when the consulted permission was refused"),
+            HttpOutcome::NotFound => (),
+        }
+        if get && pi == 0 && verdict {
+            assert!(out == HttpOutcome::Root, "GET / with the Http permission is served");
+        }
+        if get && pi == 1 && verdict {
+            assert!(out == HttpOutcome::Metrics, "GET /metrics with the HttpMetrics permission is served");
+        }
+        if get && pi == 2 && verdict {
+            assert!(out == HttpOutcome::Leases, "GET /api/v1/leases.json with the HttpLeases permission is served");
+        }
+    }
+
     // RFC 8259 section 7: after `, "host-name": ` comes a string: '"' (unescaped-char | escape)* '"' where an unescaped char
     // is any code point except '"', '\\' and controls < 0x20, and an escape is \" \\ \/ \b \f \n \r \t or \uXXXX.
     fn json_string_ok(b: &[u8]) -> bool {
